@@ -1,0 +1,35 @@
+//go:build verif
+// +build verif
+
+// Package verifhook provides named notification points used by the external
+// verification harness (/verif). It is only active with the build tag "verif".
+package verifhook
+
+import "sync/atomic"
+
+// Handler receives every Point call. It may block (park the calling goroutine),
+// copy files, or just count.
+type Handler func(name string, args ...interface{})
+
+var handler atomic.Value // of Handler
+
+// Enabled reports whether hook points are compiled in.
+const Enabled = true
+
+// Set installs h (nil uninstalls).
+func Set(h Handler) {
+	if h == nil {
+		handler.Store(Handler(nil))
+		return
+	}
+	handler.Store(h)
+}
+
+// Point notifies the installed handler, if any.
+func Point(name string, args ...interface{}) {
+	if v := handler.Load(); v != nil {
+		if h := v.(Handler); h != nil {
+			h(name, args...)
+		}
+	}
+}
